@@ -1067,3 +1067,315 @@ Proof.
          (colflips 0 (fun i => Nat.ltb i 2)), (colflips 0 (fun _ => false)), tr, res, pos', out.
   repeat split; assumption.
 Qed.
+
+(* ======================================================================== *)
+(* Part 7: coefficient positions, multi-flip deviations                      *)
+(* ======================================================================== *)
+
+(* The coefficient of a matrix position is a DISTINCT position of the chi
+   stream: payload row i uses chi(i), check row k uses chi(n + k).  (The
+   1024-row blocks of the payload loop and the final 256-row call of prgLabels
+   continue one stream; nothing restarts.) *)
+Definition coeff_idx (n batch row : nat) : nat := if Nat.eqb batch 0 then row else n + row.
+
+Lemma coeff_idx_injective : forall n b1 r1 b2 r2,
+  b1 <= 1 -> b2 <= 1 -> (b1 = 0 -> r1 < n) -> (b2 = 0 -> r2 < n) ->
+  coeff_idx n b1 r1 = coeff_idx n b2 r2 -> b1 = b2 /\ r1 = r2.
+Proof.
+  intros n b1 r1 b2 r2 H1 H2 Hr1 Hr2. unfold coeff_idx.
+  destruct b1 as [|[|b1]]; destruct b2 as [|[|b2]]; simpl; try lia;
+    try (specialize (Hr1 eq_refl)); try (specialize (Hr2 eq_refl)); lia.
+Qed.
+
+(* the sender's test, with the stream positions explicit:
+   sum_{i<n} chi(i)*q_i  xor  sum_{k<256} chi(n+k)*qc_k  xor  x*Delta  =  (t0,t1) *)
+Lemma sender_check_positions : forall chi delta (q qc : nat -> N) n x t0 t1,
+  sender_check chi delta (map q (seq 0 n)) (map qc (seq 0 checkRows)) x t0 t1 = true <->
+  split128 (N.lxor (N.lxor (isum chi q (coeff_idx n 0 0) 0 n) (isum chi qc (coeff_idx n 1 0) 0 checkRows))
+                   (clmul x delta)) = (t0, t1).
+Proof.
+  intros. unfold sender_check. rewrite eqb_pair.
+  rewrite !map_length, !seq_length.
+  rewrite inn_blocks_flat by (rewrite map_length, seq_length; lia).
+  rewrite map_length, seq_length.
+  rewrite inn_prdt_split. unfold mul128. rewrite <- !split128_lxor.
+  rewrite !inn256_isum. unfold coeff_idx. simpl Nat.eqb. cbv iota. rewrite Nat.add_0_r. reflexivity.
+Qed.
+
+Lemma csum_xorb : forall chi R1 R2 m s o,
+  csum chi (fun i => xorb (R1 i) (R2 i)) s o m = N.lxor (csum chi R1 s o m) (csum chi R2 s o m).
+Proof.
+  induction m; intros s o; simpl; [reflexivity|]. rewrite IHm.
+  destruct (R1 o), (R2 o); simpl; apply N.bits_inj; intro k; rewrite ?N.lxor_spec, ?N.bits_0;
+    destruct (N.testbit (chi s) k), (N.testbit (csum chi R1 (S s) (S o) m) k),
+             (N.testbit (csum chi R2 (S s) (S o) m) k); reflexivity.
+Qed.
+
+Lemma csum_none : forall chi R m s o, (forall i, o <= i < o + m -> R i = false) -> csum chi R s o m = 0%N.
+Proof.
+  induction m; intros s o H; simpl; [reflexivity|].
+  rewrite (H o) by lia. rewrite IHm; [reflexivity|]. intros i Hi. apply H. lia.
+Qed.
+
+Lemma csum_single : forall chi a m s o, o <= a < o + m ->
+  csum chi (fun i => Nat.eqb i a) s o m = chi (s + (a - o)).
+Proof.
+  induction m; intros s o H; [lia|]. simpl.
+  destruct (Nat.eqb_spec o a) as [->|Hne].
+  - rewrite Nat.sub_diag, Nat.add_0_r. rewrite csum_none; [apply N.lxor_0_r|].
+    intros i Hi. apply Nat.eqb_neq. lia.
+  - rewrite N.lxor_0_l, IHm by lia. f_equal. lia.
+Qed.
+
+Lemma isum_app : forall chi q a b s o,
+  isum chi q s o (a + b) = N.lxor (isum chi q s o a) (isum chi q (s + a) (o + a) b).
+Proof.
+  induction a; intros b s o; simpl.
+  - rewrite !Nat.add_0_r. reflexivity.
+  - rewrite IHa, N.lxor_assoc. do 2 f_equal; f_equal; lia.
+Qed.
+
+(* ---- the symbolic model: coefficients as independent indeterminates ------- *)
+
+(* generic point: Y_i = X^(128 i); products with 128-bit polynomials occupy
+   disjoint bit ranges, so a sum vanishes only if every term does *)
+Definition gchi (i : nat) : N := (2 ^ (128 * N.of_nat i))%N.
+
+Lemma isum_generic_low : forall d m s o k,
+  (k < 128 * N.of_nat s)%N -> N.testbit (isum gchi d s o m) k = false.
+Proof.
+  induction m; intros s o k Hk; cbn [isum]; [apply N.bits_0|].
+  rewrite N.lxor_spec, IHm by lia. unfold gchi. rewrite clmul_pow2_l.
+  rewrite N.shiftl_spec_low by exact Hk. reflexivity.
+Qed.
+
+Lemma isum_generic_zero : forall d m s o,
+  (forall i, (d i < 2^128)%N) -> isum gchi d s o m = 0%N -> forall k, k < m -> d (o + k) = 0%N.
+Proof.
+  induction m; intros s o Hd Hz k Hk; [lia|]. cbn [isum] in Hz.
+  apply N.lxor_eq in Hz. unfold gchi in Hz at 1. rewrite clmul_pow2_l in Hz.
+  assert (Hd0 : d o = 0%N).
+  { apply N.bits_inj; intro b. rewrite N.bits_0.
+    destruct (N.lt_ge_cases b 128) as [Hl|Hg].
+    - assert (T : N.testbit (N.shiftl (d o) (128 * N.of_nat s)) (b + 128 * N.of_nat s) = N.testbit (d o) b).
+      { rewrite N.shiftl_spec_high' by lia. f_equal. lia. }
+      rewrite <- T, Hz. apply isum_generic_low. lia.
+    - apply (proj1 (lt_pow2_bits (d o) 128) (Hd o) b Hg). }
+  destruct k as [|k]; [rewrite Nat.add_0_r; exact Hd0|].
+  rewrite Hd0, N.shiftl_0_l in Hz. symmetry in Hz.
+  replace (o + S k) with (S o + k) by lia. apply (IHm (S s) (S o) Hd Hz k). lia.
+Qed.
+
+(* in the symbolic model ANY non-empty set of flips that leaves some used row
+   inconsistent has a non-zero syndrome: always detected *)
+Theorem syndrome2_generic : forall delta E0 E1 n,
+  syndrome2 gchi delta E0 E1 n = 0%N <->
+  (forall i, i < n -> N.land (err_row E0 i) delta = 0%N) /\
+  (forall k, k < checkRows -> N.land (err_row E1 k) delta = 0%N).
+Proof.
+  intros delta E0 E1 n. unfold syndrome2. rewrite !syndrome_isum. rewrite (Nat.add_0_r n). simpl Nat.add.
+  set (d := fun i => if Nat.ltb i n then N.land (err_row E0 i) delta else N.land (err_row E1 (i - n)) delta).
+  assert (Hd : forall i, (d i < 2^128)%N).
+  { intros i. unfold d. destruct (Nat.ltb i n); apply land_lt_pow2; unfold err_row; apply row_of_lt. }
+  assert (E : N.lxor (isum gchi (fun k => N.land (err_row E0 k) delta) 0 0 n)
+                     (isum gchi (fun k => N.land (err_row E1 k) delta) n 0 checkRows)
+              = isum gchi d 0 0 (n + checkRows)).
+  { rewrite isum_app. simpl Nat.add. f_equal.
+    - apply isum_ext. intros i Hi. unfold d.
+      assert (Hl : Nat.ltb i n = true) by (apply Nat.ltb_lt; lia). rewrite Hl. reflexivity.
+    - rewrite <- (Nat.add_0_r n) at 3.
+      assert (G : forall m s o, isum gchi (fun k => N.land (err_row E1 k) delta) s o m
+                              = isum gchi d s (n + o) m).
+      { induction m; intros s o; cbn [isum]; [reflexivity|]. rewrite IHm. f_equal.
+        - f_equal. unfold d. assert (Hl : Nat.ltb (n + o) n = false) by (apply Nat.ltb_ge; lia).
+          rewrite Hl. f_equal. f_equal. lia.
+        - f_equal. lia. }
+      apply G. }
+  rewrite E. split.
+  - intros Hz. pose proof (isum_generic_zero d (n + checkRows) 0 0 Hd Hz) as Hall. split.
+    + intros i Hi. specialize (Hall i ltac:(lia)). cbn [Nat.add] in Hall. unfold d in Hall.
+      assert (Hl : Nat.ltb i n = true) by (apply Nat.ltb_lt; lia). rewrite Hl in Hall. exact Hall.
+    + intros k Hk. specialize (Hall (n + k) ltac:(lia)). cbn [Nat.add] in Hall. unfold d in Hall.
+      assert (Hl : Nat.ltb (n + k) n = false) by (apply Nat.ltb_ge; lia). rewrite Hl in Hall.
+      replace (n + k - n) with k in Hall by lia. exact Hall.
+  - intros [H0 H1]. apply isum_zero. intros i Hi. unfold d.
+    destruct (Nat.ltb i n) eqn:Hl.
+    + apply H0. apply Nat.ltb_lt. exact Hl.
+    + apply H1. apply Nat.ltb_ge in Hl. lia.
+Qed.
+
+Section MultiFlip.
+  Variables g0 g1 : nat -> nat -> N.
+  Variable chi_of : N -> nat -> N.
+  Variable bl : list bool.
+  Variables b0 b1 seed : N.
+  Variable pos : nat.
+  Variable delta : N.
+  Hypothesis Hdelta : (delta < 2^128)%N.
+  Variables (tr : transcript) (res : list N) (pos' : nat).
+  Hypothesis Hrun : receiver_run g0 g1 chi_of bl b0 b1 seed pos = (tr, res, pos').
+
+  Let n := length bl.
+  Let S_ := sender_run (sender_streams g0 g1 delta) delta chi_of.
+  Let chi := prg_label chi_of seed.
+
+  (* any set of flips: a non-zero syndrome is rejected *)
+  Theorem multi_flip_detected : forall E0 E1,
+    syndrome2 chi delta E0 E1 n <> 0%N -> S_ (tamper_bits E0 E1 tr) n pos = Reject.
+  Proof.
+    intros E0 E1 Hs.
+    apply (reject_of_not_accept g0 g1 chi_of bl b0 b1 seed pos delta Hdelta tr res pos' Hrun).
+    intros out Ha.
+    apply (accept_bits_iff g0 g1 chi_of bl b0 b1 seed pos delta Hdelta tr res pos' Hrun) in Ha.
+    destruct Ha as [_ Ha]. exact (Hs Ha).
+  Qed.
+
+  Definition pairset (a b : nat) : nat -> bool := fun i => xorb (Nat.eqb i a) (Nat.eqb i b).
+  Definition nowhere : nat -> bool := fun _ => false.
+
+  (* two flips in one selected column, payload rows a <> b: accepted iff the
+     two rows have the SAME coefficient *)
+  Theorem pair_payload_accept_iff : forall j0 a b out,
+    j0 < K -> N.testbit delta (N.of_nat j0) = true -> a < n -> b < n ->
+    (S_ (tamper_bits (colflips j0 (pairset a b)) (colflips j0 nowhere) tr) n pos = Accept out <->
+     out = map (qrow delta (t_ g0 pos) (b_ bl) (err_row (colflips j0 (pairset a b)))) (seq 0 n) /\
+     chi (coeff_idx n 0 a) = chi (coeff_idx n 0 b)).
+  Proof.
+    intros j0 a b out Hj Hd Ha Hb. unfold S_, n.
+    rewrite (column_flips_accept_iff g0 g1 chi_of bl b0 b1 seed pos delta Hdelta tr res pos' Hrun
+               j0 (pairset a b) nowhere out Hj Hd).
+    unfold pairset. rewrite csum_xorb, !csum_single by (fold n; lia).
+    rewrite (csum_none _ nowhere) by reflexivity.
+    rewrite N.lxor_0_r, !Nat.sub_0_r. simpl Nat.add. unfold coeff_idx. simpl Nat.eqb. cbv iota.
+    fold chi. split; intros [Ho He]; (split; [exact Ho|]).
+    - apply N.lxor_eq. exact He.
+    - rewrite He. apply N.lxor_nilpotent.
+  Qed.
+
+  (* the same position-column in the payload batch (row a) and in the check
+     batch (row k): accepted iff chi(a) = chi(n + k) *)
+  Theorem pair_payload_check_accept_iff : forall j0 a k out,
+    j0 < K -> N.testbit delta (N.of_nat j0) = true -> a < n -> k < checkRows ->
+    (S_ (tamper_bits (colflips j0 (fun i => Nat.eqb i a)) (colflips j0 (fun i => Nat.eqb i k)) tr) n pos = Accept out <->
+     out = map (qrow delta (t_ g0 pos) (b_ bl) (err_row (colflips j0 (fun i => Nat.eqb i a)))) (seq 0 n) /\
+     chi (coeff_idx n 0 a) = chi (coeff_idx n 1 k)).
+  Proof.
+    intros j0 a k out Hj Hd Ha Hk. unfold S_, n.
+    rewrite (column_flips_accept_iff g0 g1 chi_of bl b0 b1 seed pos delta Hdelta tr res pos' Hrun
+               j0 (fun i => Nat.eqb i a) (fun i => Nat.eqb i k) out Hj Hd).
+    rewrite !csum_single by (fold n; lia).
+    rewrite !Nat.sub_0_r. simpl Nat.add. unfold coeff_idx. simpl Nat.eqb. cbv iota.
+    fold chi. fold n. split; intros [Ho He]; (split; [exact Ho|]).
+    - apply N.lxor_eq. exact He.
+    - rewrite He. apply N.lxor_nilpotent.
+  Qed.
+
+  (* hence with distinct coefficients both pair shapes are rejected *)
+  Corollary pair_payload_detected : forall j0 a b,
+    j0 < K -> N.testbit delta (N.of_nat j0) = true -> a < n -> b < n ->
+    chi (coeff_idx n 0 a) <> chi (coeff_idx n 0 b) ->
+    S_ (tamper_bits (colflips j0 (pairset a b)) (colflips j0 nowhere) tr) n pos = Reject.
+  Proof.
+    intros j0 a b Hj Hd Ha Hb Hne.
+    apply (reject_of_not_accept g0 g1 chi_of bl b0 b1 seed pos delta Hdelta tr res pos' Hrun).
+    intros out Hacc. apply pair_payload_accept_iff in Hacc; try assumption. destruct Hacc as [_ He]. exact (Hne He).
+  Qed.
+
+  Corollary pair_payload_check_detected : forall j0 a k,
+    j0 < K -> N.testbit delta (N.of_nat j0) = true -> a < n -> k < checkRows ->
+    chi (coeff_idx n 0 a) <> chi (coeff_idx n 1 k) ->
+    S_ (tamper_bits (colflips j0 (fun i => Nat.eqb i a)) (colflips j0 (fun i => Nat.eqb i k)) tr) n pos = Reject.
+  Proof.
+    intros j0 a k Hj Hd Ha Hk Hne.
+    apply (reject_of_not_accept g0 g1 chi_of bl b0 b1 seed pos delta Hdelta tr res pos' Hrun).
+    intros out Hacc. apply pair_payload_check_accept_iff in Hacc; try assumption. destruct Hacc as [_ He]. exact (Hne He).
+  Qed.
+
+  (* a chi stream that REPEATS a coefficient (e.g. one that restarts for every
+     block / for the check batch) is refuted: the two flips cancel, the sender
+     accepts and output a is wrong *)
+  Theorem repeated_coefficient_payload_check_forge : forall j0 a k,
+    j0 < K -> N.testbit delta (N.of_nat j0) = true -> a < n -> k < checkRows ->
+    chi (coeff_idx n 0 a) = chi (coeff_idx n 1 k) ->
+    exists out,
+      S_ (tamper_bits (colflips j0 (fun i => Nat.eqb i a)) (colflips j0 (fun i => Nat.eqb i k)) tr) n pos = Accept out /\
+      corr_holds delta out res bl = false.
+  Proof.
+    intros j0 a k Hj Hd Ha Hk He. eexists. split.
+    - apply pair_payload_check_accept_iff; try assumption. split; [reflexivity | exact He].
+    - apply (column_flips_break_correlation g0 g1 chi_of bl b0 b1 seed pos delta Hdelta tr res pos' Hrun
+               j0 (fun i => Nat.eqb i a) a Hj Hd Ha). apply Nat.eqb_refl.
+  Qed.
+
+  Theorem repeated_coefficient_payload_forge : forall j0 a b,
+    j0 < K -> N.testbit delta (N.of_nat j0) = true -> a < n -> b < n -> a <> b ->
+    chi (coeff_idx n 0 a) = chi (coeff_idx n 0 b) ->
+    exists out,
+      S_ (tamper_bits (colflips j0 (pairset a b)) (colflips j0 nowhere) tr) n pos = Accept out /\
+      corr_holds delta out res bl = false.
+  Proof.
+    intros j0 a b Hj Hd Ha Hb Hab He. eexists. split.
+    - apply pair_payload_accept_iff; try assumption. split; [reflexivity | exact He].
+    - apply (column_flips_break_correlation g0 g1 chi_of bl b0 b1 seed pos delta Hdelta tr res pos' Hrun
+               j0 (pairset a b) a Hj Hd Ha). unfold pairset. rewrite Nat.eqb_refl.
+      destruct (Nat.eqb_spec a b); [contradiction | reflexivity].
+  Qed.
+End MultiFlip.
+
+(* conjunctions used by Props/C15.v *)
+Lemma selected_rows_detected :
+  forall g0 g1 chi_of bl b0 b1 seed pos delta, (delta < 2^128)%N ->
+  forall tr res pos', receiver_run g0 g1 chi_of bl b0 b1 seed pos = (tr, res, pos') ->
+  (forall E0 i0,
+    i0 < length bl -> (forall j i, E0 j i = true -> i = i0) ->
+    N.land (err_row E0 i0) delta <> 0%N -> prg_label chi_of seed i0 <> 0%N ->
+    sender_run (sender_streams g0 g1 delta) delta chi_of (tamper_bits E0 noerr tr) (length bl) pos = Reject) /\
+  (forall E1 i0,
+    i0 < checkRows -> (forall j i, E1 j i = true -> i = i0) ->
+    N.land (err_row E1 i0) delta <> 0%N -> prg_label chi_of seed (length bl + i0) <> 0%N ->
+    sender_run (sender_streams g0 g1 delta) delta chi_of (tamper_bits noerr E1 tr) (length bl) pos = Reject).
+Proof.
+  intros g0 g1 chi_of bl b0 b1 seed pos delta Hd tr res pos' Hrun. split.
+  - exact (selected_row_detected g0 g1 chi_of bl b0 b1 seed pos delta Hd tr res pos' Hrun).
+  - exact (selected_check_row_detected g0 g1 chi_of bl b0 b1 seed pos delta Hd tr res pos' Hrun).
+Qed.
+
+Lemma pair_flip_detected :
+  forall g0 g1 chi_of bl b0 b1 seed pos delta, (delta < 2^128)%N ->
+  forall tr res pos', receiver_run g0 g1 chi_of bl b0 b1 seed pos = (tr, res, pos') ->
+  forall j0, j0 < K -> N.testbit delta (N.of_nat j0) = true ->
+  (forall a b, a < length bl -> b < length bl ->
+    prg_label chi_of seed (coeff_idx (length bl) 0 a) <> prg_label chi_of seed (coeff_idx (length bl) 0 b) ->
+    sender_run (sender_streams g0 g1 delta) delta chi_of
+               (tamper_bits (colflips j0 (pairset a b)) (colflips j0 nowhere) tr) (length bl) pos = Reject) /\
+  (forall a k, a < length bl -> k < checkRows ->
+    prg_label chi_of seed (coeff_idx (length bl) 0 a) <> prg_label chi_of seed (coeff_idx (length bl) 1 k) ->
+    sender_run (sender_streams g0 g1 delta) delta chi_of
+               (tamper_bits (colflips j0 (fun i => Nat.eqb i a)) (colflips j0 (fun i => Nat.eqb i k)) tr) (length bl) pos = Reject).
+Proof.
+  intros g0 g1 chi_of bl b0 b1 seed pos delta Hd tr res pos' Hrun j0 Hj Hdj. split.
+  - intros a b. exact (pair_payload_detected g0 g1 chi_of bl b0 b1 seed pos delta Hd tr res pos' Hrun j0 a b Hj Hdj).
+  - intros a k. exact (pair_payload_check_detected g0 g1 chi_of bl b0 b1 seed pos delta Hd tr res pos' Hrun j0 a k Hj Hdj).
+Qed.
+
+Lemma repeated_coefficient_refuted :
+  forall g0 g1 chi_of bl b0 b1 seed pos delta, (delta < 2^128)%N ->
+  forall tr res pos', receiver_run g0 g1 chi_of bl b0 b1 seed pos = (tr, res, pos') ->
+  forall j0, j0 < K -> N.testbit delta (N.of_nat j0) = true ->
+  (forall a k, a < length bl -> k < checkRows ->
+    prg_label chi_of seed (coeff_idx (length bl) 0 a) = prg_label chi_of seed (coeff_idx (length bl) 1 k) ->
+    exists out,
+      sender_run (sender_streams g0 g1 delta) delta chi_of
+                 (tamper_bits (colflips j0 (fun i => Nat.eqb i a)) (colflips j0 (fun i => Nat.eqb i k)) tr) (length bl) pos = Accept out /\
+      corr_holds delta out res bl = false) /\
+  (forall a b, a < length bl -> b < length bl -> a <> b ->
+    prg_label chi_of seed (coeff_idx (length bl) 0 a) = prg_label chi_of seed (coeff_idx (length bl) 0 b) ->
+    exists out,
+      sender_run (sender_streams g0 g1 delta) delta chi_of
+                 (tamper_bits (colflips j0 (pairset a b)) (colflips j0 nowhere) tr) (length bl) pos = Accept out /\
+      corr_holds delta out res bl = false).
+Proof.
+  intros g0 g1 chi_of bl b0 b1 seed pos delta Hd tr res pos' Hrun j0 Hj Hdj. split.
+  - intros a k. exact (repeated_coefficient_payload_check_forge g0 g1 chi_of bl b0 b1 seed pos delta Hd tr res pos' Hrun j0 a k Hj Hdj).
+  - intros a b. exact (repeated_coefficient_payload_forge g0 g1 chi_of bl b0 b1 seed pos delta Hd tr res pos' Hrun j0 a b Hj Hdj).
+Qed.
